@@ -187,6 +187,67 @@ fn check_layers(c: &LayerCase) -> V {
     }
 }
 
+/// the same four layers, but the inline and document-default layers are written into a Markdown
+/// document and composed by the real MarkdownParser (format layer = its base configuration)
+fn check_parsed_layers(c: &LayerCase) -> V {
+    use scrut::parsers::parser::Parser;
+    let cli = c.layers[0].to_config();
+    let inline = c.layers[1].to_config();
+    let defaults = c.layers[2].to_config();
+    let format = c.layers[3].to_config();
+    let mut doc = String::new();
+    if !defaults.is_empty() {
+        let yaml = match serde_yaml::to_string(&defaults) {
+            Ok(y) => y,
+            Err(e) => return V::fail(format!("cannot serialise defaults: {e}")),
+        };
+        doc.push_str("---\ndefaults:\n");
+        for l in yaml.lines() {
+            doc.push_str(&format!("  {l}\n"));
+        }
+        doc.push_str("---\n\n");
+    }
+    // JSON is YAML flow syntax
+    let inline_text = if inline.is_empty() {
+        String::new()
+    } else {
+        format!(" {}", serde_json::to_string(&inline).unwrap_or_default())
+    };
+    doc.push_str(&format!("# t\n\n```scrut{inline_text}\n$ true\n```\n"));
+    let parsed = guard(|| {
+        scrut::parsers::markdown::MarkdownParser::new(
+            std::sync::Arc::new(scrut::expectation::ExpectationMaker::new(
+                scrut::rules::registry::RuleRegistry::default(),
+            )),
+            &["scrut"],
+            Some(format.clone()),
+        )
+        .parse(&doc)
+    });
+    let (doc_cfg, tests) = match parsed {
+        Err(p) => return V::fail(format!("parser crashed: {p}\n{doc}")),
+        Ok(Err(e)) => return V::fail(format!("document does not parse: {e:#}\n{doc}")),
+        Ok(Ok(x)) => x,
+    };
+    if tests.len() != 1 {
+        return V::fail(format!("{} tests parsed\n{doc}", tests.len()));
+    }
+    // test command and executor steps
+    let effective = tests[0]
+        .config
+        .with_overrides_from(&cli)
+        .with_defaults_from(&doc_cfg.defaults);
+    let expect = model(&[&c.layers[0], &c.layers[1], &c.layers[2], &c.layers[3]]).to_config();
+    let base = check_layers(c); // labels / non-triviality
+    if effective != expect {
+        return V::fail(format!(
+            "configuration of the parsed test case differs from 'first layer that sets it' (got vs expected): {}\ndocument:\n{doc}",
+            diff_keys(&effective, &expect)
+        ));
+    }
+    V { fail: None, ..base }
+}
+
 #[derive(Clone, Debug, Serialize, Deserialize)]
 pub struct DocLayerCase {
     pub layers: Vec<DocCfg>,
@@ -556,6 +617,15 @@ pub fn property() -> Property {
                 max_workers: 0,
                 strategy: Box::new(|_| layer_strategy()),
                 check: Box::new(check_layers),
+            }),
+            Box::new(PropPart::<LayerCase> {
+                name: "parsed_layers",
+                rule: "the same four layers, inline layer and document defaults written into a Markdown document (front-matter `defaults`, JSON one-liner on the fence line) and composed by the real MarkdownParser with the format layer as base configuration, then the test command's and the executor's steps. Non-trivial as in `layers`",
+                quick: 60_000,
+                thorough: 2_000_000,
+                max_workers: 0,
+                strategy: Box::new(|_| layer_strategy()),
+                check: Box::new(check_parsed_layers),
             }),
             Box::new(PropPart::<DocLayerCase> {
                 name: "doc_layers",
